@@ -7,10 +7,13 @@ from ..runner import Case, Property
 class C04(Property):
     id = "C04"
     lean_module = "RosuModel.Props.C04All"   # imports Props/C04Slider.lean, Props/C04Timing.lean (which import Props/C04.lean), Props/C04File.lean, Props/C04Toy.lean, Props/C04Decoded.lean and Props/C04Ieee.lean; all in namespace Rosu.C04
-    theorem_modules = ['RosuModel.Props.C04All', 'RosuModel.Props.C04Ieee', 'RosuModel.Props.C04DecodedIeee']   # files whose top-level theorems are all audited
+    theorem_modules = ['RosuModel.Props.C04All', 'RosuModel.Props.C04Ieee', 'RosuModel.Props.C04DecodedIeee', 'RosuModel.Props.C04DecodedObjects', 'RosuModel.Props.C04DecodedObjectsToy',
+                       'RosuModel.Props.C04DecodedObjectsIeee', ('RosuModel.Lemmas.DecodedObjInv', 'Rosu.DecodedObj')]   # files whose top-level theorems are all audited
     namespace = "Rosu.C04"
     design_ref = "5.4"
-    required_theorems = ["headers_recognised", "encode_shape", "block_starts_with_header", "encoded_text_lines", "version_line_parses",
+    required_theorems = [
+        "decoded_circles_representable", "decoded_spinners_representable", "decoded_holds_representable", "decoded_sliders_representable_partial", "hitobjects_block_accepted_decoded",
+        "encoded_file_accepted_decoded_partial", "objLaws_ieee", "decoded_circles_representable_ieee", "durLaws_float_false", "objF21_not_repObject","headers_recognised", "encode_shape", "block_starts_with_header", "encoded_text_lines", "version_line_parses",
                          "record_blocks_are_lines", "lines_of_block", "record_lines_accepted_metadata", "record_lines_accepted_colours",
                          "record_lines_accepted_editor", "record_lines_accepted_difficulty", "record_lines_accepted_general",
                          "record_lines_accepted_events", "lines_dispatched", "record_blocks_accepted_and_recovered",
@@ -98,6 +101,16 @@ class C04(Property):
             "colour lists of the lengths written, the timing-point state is parse_timing_points folded over exactly the lines written. encoded_file_sections_accepted reads the acceptance per "
             "section on the model's parsers alone (each record line is neither header nor skipped and its parser accepts it in ANY state). The count of timing POINTS stored needs the "
             "decoder's grouping arithmetic to be exact: C02.roundtrip_rep_counts (EpsLaws / GroupLaws)",
+        "decoded_circles_representable / decoded_spinners_representable / decoded_holds_representable / decoded_sliders_representable_partial / hitobjects_block_accepted_decoded / encoded_file_accepted_decoded_partial (hit objects of DECODED maps)":
+            "sixth session (Lemmas/DecodedObjInv.lean, Props/C04DecodedObjects*.lean). The invariant ObjInv (every pushed object: samples with custom bank / volume in range and custom file names free of `:` `,` LF `//`; "
+            "combo offsets 0..7; slider repeats 0..8999; requested length = max(l, 0) of a parsed l within the limit; no custom file on a slider's own samples) is proved for EVERY line (accepted or rejected), carried through the "
+            "framing driver for every byte string (objInv_decoded) and through the finaliser (decoded_objOk, with finalizeObjects_samples: the sample point applied to each object). With C14.decoded_stored for the numeric clauses: "
+            "every circle / spinner / hold of a decoded map is RepCircle / RepSpinner / RepHold, and every slider RepSlider, in any mode, under NAMED residuals only - codec laws ObjLaws (a THEOREM for the IEEE instances: objLaws_ieee, so "
+            "decoded_circles_representable_ieee has no law left), DurLaws (start + duration representable and recovering the duration; toy instance; REFUTED for IEEE doubles by the sign of a zero only: durLaws_float_false - start +0, end -0), "
+            "CtrlLaws (control-point offsets; toy instance, not instantiated for IEEE); the findings' predicates FileNameResidual.trimmed (F21), SliderResidual.computed (F20); FileNameResidual.noBar (`|` in a circle's file name: RepSampleFile is shared "
+            "with sliders; the line is accepted anyway: objBar_accepted_anyway); and SliderResidual.shape = the type / shape half of RepPath (where F17 lives), which is ASSUMED, not yet derived from convert_path_str - hence _partial. F18 does not enter. "
+            "Corollaries: hitobjects_block_accepted_decoded (C04.hitobjects_block_accepted with RepObject discharged), decoded_repMap_partial, encoded_file_accepted_decoded_partial (the file-level statement for decoded maps; RepTimingMap stays a hypothesis). "
+            "Non-vacuity: three decoded files (circle with hit.wav, spinner, hold) evaluated in the kernel. The unconditional statement is refuted on a decoded file: objF21_not_repObject (`256,192,1000,1,0,0:0:0:0:a ,x` gives the file name `a `)",
         "list_block_lines_accepted_statement (unconditional)":
             "NOT a theorem: that every object (RepObject) and every collected control point (RepTimingMap) of a DECODED map is representable (i.e. that a decoded map satisfies RepMap), which would "
             "discharge the hypothesis of encoded_file_accepted for every decoded map. It is false as stated (findings F20; computed sample-point times can be non-finite) and is evaluated on "
